@@ -10,7 +10,7 @@ EXPECT_FMT = [[format(x, sp) for sp in SPECS] for x in FINTS]
 EXPECT_STR = [str(x) for x in INTS]
 
 STRS = ["0", "7", "42", "007", "-0", "-7", "+7", " 7", "7 ", "\t7\n", "1_0", "1__0", "_1", "1_", "+", "-", "", " ",
-        "+-1", "1 1", "12a", "a", "1.0", "0x1", "99999", "-00100", "\x1f5", "5\x0b", "1_2_3", "٣", "+ 1"]
+        "+-1", "1 1", "12a", "a", "1.0", "0x1", "99999", "-00100", "\x1f5", "5\x0b", "1_2_3", "٣", "+ 1", "\u2000٣1 ", "é1", "1é", "-٣٣"]
 
 
 def _py_int(s):
